@@ -353,3 +353,14 @@ func isSourceCallback(v *types.Var) bool {
 	n, ok := sig.Results().At(0).Type().(*types.Named)
 	return ok && n.Obj().Name() == "FileConfig"
 }
+
+// objOfIdentOrSel resolves an identifier or a package-qualified identifier (pkg.Name) to its object.
+func objOfIdentOrSel(info *types.Info, e ast.Expr) types.Object {
+	switch x := ast.Unparen(e).(type) {
+	case *ast.Ident:
+		return objOfIdent(info, x)
+	case *ast.SelectorExpr:
+		return info.Uses[x.Sel]
+	}
+	return nil
+}
